@@ -1,20 +1,30 @@
 ----------------------------- MODULE SrvInfoTrace -----------------------------
-(* Direction B: traces of the real PartialServerInfo with real-size infos (64 clients, up to
-   64 packets), and of parse_response on arbitrary datagrams.
+(* Direction B: traces of the real PartialServerInfo with real-size infos (64 clients with
+   maximal-length names, datagrams filled up to 1400 bytes, up to 64 packets, parts of two
+   servers, repeated / overlapping parts, take_info at any moment), and of parse_response on
+   arbitrary datagrams.
 
-     {"t":"I","inst":{v,n,parts:[{bits,cl,main}]}}     a new run (bits exported 1-based)
+     {"t":"I","inst":{parts:[{srv,v,tok,main,n,off,cl}],rec:[..]}}   a new run
      {"t":"P","p":k,"res":"ok"|"none"|"panic"}         part k rendered, parsed, appended to the pool
-     {"t":"M","i":i,"j":j,"res":"ok"|"overlap"|..,"obs":{complete,clients}}
-                                                       pool[i].merge(pool[j]); get_info on pool[i]
+     {"t":"M","i":i,"j":j,"res":"ok"|"overlap"|"tokens"|"versions"|"notmulti"|"panic",
+      "obs":{complete,clients,srv,n},"obsq":{..},"same":b}
+                                                       pool[i].merge(pool[j]); obs = get_info on
+                                                       pool[i]; obsq = the same history on a second pool
+                                                       on which get_info is never called (observed
+                                                       through a clone); same = an error left pool[i]
+                                                       as it was
+     {"t":"K","i":i,"obs":{..}}                        pool[i].take_info()
      {"t":"D","hk":kind,"len":n,"res":kind|"none"|"panic"}   parse_response on an arbitrary datagram
 
-   Every M event must be a step of SrvInfo.tla (MergeInto or MergeRepeated_KnownBug of the model
-   selected by MaskUpdated), *and* is judged at the property level; the verdict of each step is
-   printed:  <<"PROP-REJECT", event, key>>  the observable result is not what the set of merged
-             parts warrants and no known-bug step explains it (or panic): violation;
+   Every M / K event must be a step of SrvInfo.tla (MergeInto, MergeRepeated_KnownBug or TakeInfo of
+   the model selected by MaskUpdated), *and* - when it concerns partials the property speaks about -
+   is judged at the property level; the verdict of each step is printed:
+             <<"PROP-REJECT", event, key>>  the observable result is not what the set of merged
+                                            parts warrants and no known-bug step explains it (or
+                                            panic): violation;
              <<"KNOWN", event, shape>>      it is not, and a MergeRepeated_KnownBug step explains it;
-             <<"DETAIL", event, what>>      observable result as the property demands but not the
-                                            step of this detailed model (drift, or the other model). *)
+             <<"DETAIL", event, what>>      observable result as the property demands (or the property
+                                            is silent) but not the step of this detailed model. *)
 EXTENDS SrvInfo, Json, IOUtils
 
 Rec == ndJsonDeserialize(IOEnv.TRACE)
@@ -22,28 +32,30 @@ VARIABLES i, alive
 tv == <<i, alive>>
 ev == Rec[i]
 
-SeqSet(s) == {s[k] : k \in 1..Len(s)}
-InstOf(j) == [v |-> j.v, n |-> j.n,
-              parts |-> [p \in 1..Len(j.parts) |-> [bits |-> {b - 1 : b \in SeqSet(j.parts[p].bits)},
-                                                    cl |-> SeqSet(j.parts[p].cl), main |-> j.parts[p].main]]]
-\* the clients as a sequence, in the order get_info returned them
-ObsOf(o) == [complete |-> o.complete, clients |-> o.clients]
+InstOf(j) == MkInst([p \in 1..Len(j.parts) |->
+                       [srv |-> j.parts[p].srv, v |-> j.parts[p].v, tok |-> j.parts[p].tok, main |-> j.parts[p].main,
+                        n |-> j.parts[p].n, off |-> j.parts[p].off, cl |-> j.parts[p].cl]], j.rec)
+ObsOf(o) == [complete |-> o.complete, clients |-> o.clients, srv |-> o.srv, n |-> o.n]
 
 TInit == /\ i = 1 /\ alive = TRUE
-         /\ inst = [v |-> "none", n |-> 0, parts |-> <<>>] /\ pool = <<>> /\ nparse = 0 /\ bug = 0 /\ act = [a |-> "init"]
+         /\ inst = [parts |-> <<>>, rec |-> <<>>, wf |-> {}] /\ pool = <<>> /\ cnt = <<>> /\ bug = 0 /\ act = [a |-> "init"]
 
 NewRun ==
   /\ ev.t = "I"
-  /\ inst' = InstOf(ev.inst) /\ pool' = <<>> /\ nparse' = 0 /\ bug' = 0 /\ act' = [a |-> "init"] /\ alive' = TRUE
+  /\ inst' = InstOf(ev.inst) /\ pool' = <<>> /\ cnt' = <<>> /\ bug' = 0 /\ act' = [a |-> "init"] /\ alive' = TRUE
 
-Skip == /\ ~alive /\ ev.t \in {"P", "M"} /\ UNCHANGED <<vars, alive>>
+Skip == /\ ~alive /\ ev.t \in {"P", "M", "K"} /\ UNCHANGED <<vars, alive>>
 
 Parse ==
   /\ alive /\ ev.t = "P"
-  /\ IF ev.res = "ok"
-     THEN /\ pool' = Append(pool, ParsePart(inst, ev.p)) /\ nparse' = nparse + 1
-          /\ act' = [a |-> "parse", p |-> ev.p] /\ UNCHANGED <<inst, bug, alive>>
-     ELSE /\ PrintT(<<"PROP-REJECT", i, IF ev.res = "panic" THEN "panic:parse-of-valid-part" ELSE "parse-rejected-valid-part:" \o inst.v>>)
+  /\ LET part == inst.parts[ev.p]
+         want == IF Parses(part) THEN "ok" ELSE "none" IN
+     IF ev.res = want
+     THEN /\ pool' = IF want = "ok" THEN Append(pool, ParsePart(inst, ev.p)) ELSE pool
+          /\ act' = [a |-> "parse", p |-> ev.p] /\ UNCHANGED <<inst, cnt, bug, alive>>
+     ELSE /\ IF ev.res = "panic" THEN PrintT(<<"PROP-REJECT", i, "panic:parse-of-part:" \o part.v>>)
+             ELSE IF want = "ok" /\ part.srv \in inst.wf THEN PrintT(<<"PROP-REJECT", i, "parse-rejected-valid-part:" \o part.v>>)
+             ELSE PrintT(<<"DETAIL", i, "parse-of-part:" \o part.v \o ":" \o ev.res>>)
           /\ alive' = FALSE /\ UNCHANGED vars
 
 MergeEv ==
@@ -51,27 +63,53 @@ MergeEv ==
   /\ LET self == pool[ev.i]
          other == pool[ev.j]
          known == StaleMaskMatters(inst, self, other)
-         br == Branch(inst, self, other)
-         res == IF br = "overlap" THEN "overlap" ELSE "ok"
-         m == Merge(inst, self, other)
-         m2 == [m EXCEPT !.got = PropGot(self, other, res)]
+         br == Branch(self, other)
+         res == ResOf(br)
+         m == Merge(self, other)
+         judged == SameInfo(inst, self, other)
+         m2 == IF judged THEN [m EXCEPT !.got = PropGot(self, other, res)] ELSE m
          got == ObsOf(ev.obs)
-         detailed == ev.res = res /\ got = Obs(inst, m2)
+         gotq == ObsOf(ev.obsq)
+         detailed == ev.res = res /\ got = Obs(inst, m2) /\ gotq = got /\ ev.same
          \* property level: the result is legal and the observation is what the merged set warrants
          pgot == PropGot(self, other, ev.res)
-         propok == ev.res \in {"ok", "overlap"} /\ PropResultOk(self, other, ev.res) /\ got = PropObs(inst, pgot)
+         propok == ~judged \/ (ev.res \in {"ok", "overlap"} /\ PropResultOk(self, other, ev.res)
+                               /\ got = PropObs(inst, pgot) /\ gotq = got)
          nbug == bug + (IF known THEN 1 ELSE 0)
-         shape == inst.v \o ":" \o br \o "-for-" \o BranchExact(inst, self, other) IN
-     IF detailed
+         shape == self.ver \o ":" \o br \o "-for-" \o BranchExact(inst, self, other) IN
+     IF ev.res = "panic" THEN
+          /\ PrintT(<<"PROP-REJECT", i, "panic:merge:" \o shape>>)
+          /\ alive' = FALSE /\ UNCHANGED vars
+     ELSE IF detailed
      THEN /\ pool' = DropAt([pool EXCEPT ![ev.i] = m2], ev.j)
           /\ bug' = nbug
           /\ act' = [a |-> "merge"]
           /\ IF propok THEN TRUE
-             ELSE IF nbug > 0 THEN PrintT(<<"KNOWN", i, IF known THEN shape ELSE inst.v \o ":after-stale-mask">>)
+             ELSE IF nbug > 0 THEN PrintT(<<"KNOWN", i, IF known THEN shape ELSE self.ver \o ":after-stale-mask">>)
              ELSE PrintT(<<"PROP-REJECT", i, "unexplained:" \o shape>>)
-          /\ UNCHANGED <<inst, nparse, alive>>
+          /\ UNCHANGED <<inst, cnt, alive>>
      ELSE /\ IF propok THEN PrintT(<<"DETAIL", i, shape>>)
-             ELSE PrintT(<<"PROP-REJECT", i, (IF ev.res = "panic" THEN "panic:merge:" ELSE "merge-deviates:") \o shape>>)
+             ELSE PrintT(<<"PROP-REJECT", i, "merge-deviates:" \o shape>>)
+          /\ alive' = FALSE /\ UNCHANGED vars
+
+TakeEv ==
+  /\ alive /\ ev.t = "K"
+  /\ LET x == pool[ev.i]
+         got == ObsOf(ev.obs)
+         judged == Pure(inst, x)
+         propok == ~judged \/ got = PropObs(inst, x.got) IN
+     IF ev.obs.srv = -9 THEN
+          /\ PrintT(<<"PROP-REJECT", i, "panic:take:" \o x.ver>>)
+          /\ alive' = FALSE /\ UNCHANGED vars
+     ELSE IF got = Obs(inst, x)
+     THEN /\ pool' = IF Complete(inst, x) THEN [pool EXCEPT ![ev.i] = Spent] ELSE pool
+          /\ act' = [a |-> "take"]
+          /\ IF propok THEN TRUE
+             ELSE IF bug > 0 THEN PrintT(<<"KNOWN", i, x.ver \o ":after-stale-mask">>)
+             ELSE PrintT(<<"PROP-REJECT", i, "unexplained:take:" \o x.ver>>)
+          /\ UNCHANGED <<inst, cnt, bug, alive>>
+     ELSE /\ IF propok THEN PrintT(<<"DETAIL", i, "take:" \o x.ver>>)
+             ELSE PrintT(<<"PROP-REJECT", i, "take-deviates:" \o x.ver>>)
           /\ alive' = FALSE /\ UNCHANGED vars
 
 \* totality: parse_response returns a value or nothing
@@ -81,7 +119,7 @@ Datagram ==
   /\ UNCHANGED <<vars, alive>>
 
 TNext == /\ i <= Len(Rec) /\ i' = i + 1
-         /\ (NewRun \/ Skip \/ Parse \/ MergeEv \/ Datagram)
+         /\ (NewRun \/ Skip \/ Parse \/ MergeEv \/ TakeEv \/ Datagram)
 TSpec == TInit /\ [][TNext]_<<vars, tv>>
 
 Consumed ==
